@@ -119,3 +119,46 @@ package local
 //@ loop 2 invariant[service-entries-non-nil] forall k structs.ServiceID :: has(l.services, k) ==> l.services[k] != nil && k.ID != ""
 //@ loop 2 invariant[check-entries-non-nil] forall k structs.CheckID :: has(l.checks, k) ==> l.checks[k] != nil && k.ID != ""
 //@ loop 2 invariant[check-entries-have-checks] forall k structs.CheckID :: has(l.checks, k) ==> l.checks[k].Check != nil
+
+// ---- C16: the full-sync diff. After a successful comparison with what the catalog reports for this node:
+// a local service (check) the catalog does not have is marked out of sync; a catalog service (check) the agent does
+// not have is recorded as Deleted so that it gets deregistered (the automatically managed consul service and serf
+// check excepted); nothing else is added or dropped. (That an entry both sides have ends up InSync exactly if the two
+// definitions are the same is NOT covered.)
+//@ func State.updateSyncState
+//@ props C16
+//@ results err
+//@ requires l != nil && l.tokens != nil
+//@ requires[entries-non-nil] (forall k structs.ServiceID :: has(l.services, k) ==> l.services[k] != nil && (l.services[k].Deleted || l.services[k].Service != nil)) && (forall k structs.CheckID :: has(l.checks, k) ==> l.checks[k] != nil && (l.checks[k].Deleted || l.checks[k].Check != nil))
+//@ requires[entries-distinct] entriesDistinct(l)
+//@ requires[entries-allocated] (forall k structs.ServiceID :: has(l.services, k) ==> allocated(l.services[k])) && (forall k structs.CheckID :: has(l.checks, k) ==> allocated(l.checks[k]))
+//@ ensures[missing-remotely-marked-out-of-sync] err == nil ==> forall k structs.ServiceID :: old(has(l.services, k)) && !has(remoteServices, k) ==> has(l.services, k) && !l.services[k].InSync
+//@ ensures[remote-only-marked-deleted] err == nil ==> forall k structs.ServiceID :: has(remoteServices, k) && !old(has(l.services, k)) && !structs.IsConsulServiceID(k) ==> has(l.services, k) && l.services[k].Deleted
+//@ ensures[nothing-else-added-or-dropped] err == nil ==> (forall k structs.ServiceID :: (has(l.services, k) <==> (old(has(l.services, k)) || (has(remoteServices, k) && !structs.IsConsulServiceID(k)))))
+//@ ensures[checks-missing-remotely-marked-out-of-sync] err == nil ==> forall k structs.CheckID :: old(has(l.checks, k)) && !has(remoteChecks, k) ==> has(l.checks, k) && !l.checks[k].InSync
+//@ ensures[checks-remote-only-marked-deleted] err == nil ==> forall k structs.CheckID :: has(remoteChecks, k) && !old(has(l.checks, k)) && !structs.IsSerfCheckID(k) ==> has(l.checks, k) && l.checks[k].Deleted
+//@ ensures[checks-nothing-else-added-or-dropped] err == nil ==> (forall k structs.CheckID :: (has(l.checks, k) <==> (old(has(l.checks, k)) || (has(remoteChecks, k) && !structs.IsSerfCheckID(k)))))
+//@ loop 4 invariant[visited-marked] forall k structs.ServiceID :: range4_visited[k] && has(l.services, k) && !has(remoteServices, k) ==> !l.services[k].InSync
+//@ loop 4 invariant[map-unchanged] (forall k structs.ServiceID :: (has(l.services, k) <==> old(has(l.services, k))) && l.services[k] == old(l.services[k])) && entriesDistinct(l)
+//@ loop 4 invariant[other-fields-unchanged] forall k structs.ServiceID :: has(l.services, k) ==> l.services[k].Deleted == old(l.services[k].Deleted) && l.services[k].Service == old(l.services[k].Service)
+//@ loop 5 invariant[entries-distinct] entriesDistinct(l)
+//@ loop 5 invariant[entries-allocated] forall k structs.ServiceID :: has(l.services, k) ==> allocated(l.services[k])
+//@ loop 5 invariant[entries-non-nil] forall k structs.ServiceID :: has(l.services, k) ==> l.services[k] != nil
+//@ loop 5 invariant[entries-have-definitions] forall k structs.ServiceID :: has(l.services, k) ==> l.services[k].Deleted || l.services[k].Service != nil
+//@ loop 5 invariant[map-shape] forall k structs.ServiceID :: (has(l.services, k) <==> (old(has(l.services, k)) || (range5_visited[k] && has(remoteServices, k) && !structs.IsConsulServiceID(k))))
+//@ loop 5 invariant[old-entries-keep-their-object] forall k structs.ServiceID :: old(has(l.services, k)) ==> l.services[k] == old(l.services[k])
+//@ loop 5 invariant[old-entries-keep-deleted-flag] forall k structs.ServiceID :: old(has(l.services, k)) ==> l.services[k].Deleted == old(l.services[k].Deleted)
+//@ loop 5 invariant[not-in-remote-marked] forall k structs.ServiceID :: old(has(l.services, k)) && !has(remoteServices, k) ==> !l.services[k].InSync
+//@ loop 5 invariant[visited-remote-only-deleted] forall k structs.ServiceID :: range5_visited[k] && has(remoteServices, k) && !old(has(l.services, k)) && !structs.IsConsulServiceID(k) ==> l.services[k].Deleted
+//@ loop 8 invariant[visited-marked] forall k structs.CheckID :: range8_visited[k] && has(l.checks, k) && !has(remoteChecks, k) ==> !l.checks[k].InSync
+//@ loop 8 invariant[map-unchanged] (forall k structs.CheckID :: (has(l.checks, k) <==> old(has(l.checks, k))) && l.checks[k] == old(l.checks[k])) && entriesDistinct(l)
+//@ loop 8 invariant[other-fields-unchanged] forall k structs.CheckID :: has(l.checks, k) ==> l.checks[k].Deleted == old(l.checks[k].Deleted) && l.checks[k].Check == old(l.checks[k].Check)
+//@ loop 9 invariant[entries-distinct] entriesDistinct(l)
+//@ loop 9 invariant[entries-allocated] forall k structs.CheckID :: has(l.checks, k) ==> allocated(l.checks[k])
+//@ loop 9 invariant[entries-non-nil] forall k structs.CheckID :: has(l.checks, k) ==> l.checks[k] != nil
+//@ loop 9 invariant[entries-have-definitions] forall k structs.CheckID :: has(l.checks, k) ==> l.checks[k].Deleted || l.checks[k].Check != nil
+//@ loop 9 invariant[map-shape] forall k structs.CheckID :: (has(l.checks, k) <==> (old(has(l.checks, k)) || (range9_visited[k] && has(remoteChecks, k) && !structs.IsSerfCheckID(k))))
+//@ loop 9 invariant[old-entries-keep-their-object] forall k structs.CheckID :: old(has(l.checks, k)) ==> l.checks[k] == old(l.checks[k])
+//@ loop 9 invariant[old-entries-keep-deleted-flag] forall k structs.CheckID :: old(has(l.checks, k)) ==> l.checks[k].Deleted == old(l.checks[k].Deleted)
+//@ loop 9 invariant[not-in-remote-marked] forall k structs.CheckID :: old(has(l.checks, k)) && !has(remoteChecks, k) ==> !l.checks[k].InSync
+//@ loop 9 invariant[visited-remote-only-deleted] forall k structs.CheckID :: range9_visited[k] && has(remoteChecks, k) && !old(has(l.checks, k)) && !structs.IsSerfCheckID(k) ==> l.checks[k].Deleted
